@@ -40,7 +40,10 @@ CONSTANTS Keys,        \* object keys of an unversioned bucket (one row each)
           MaxId,       \* bound on minted part ids
           MaxOps,      \* bound on writer / fault operations
           MaxReads,    \* bound on reader sessions
-          Faults,      \* enabled environment faults: "orphan", "regdrop", "regover", "crash"
+          Faults,      \* enabled environment steps: "orphan", "regdrop", "regover" (damage in the
+                       \* directions the code itself produces), "crash" (leftover files of a killed
+                       \* process), "quiesce" (writers stop; liveness configs)
+          Preload,     \* "none" | "twopart": initial state of the model checker (k1 = two-part object)
           Deviations   \* deviation tags the code is known to have ("D-..."), or hypothetical
                        \* breakages ("H-...") used only to show that the properties are not vacuous
 
@@ -63,7 +66,7 @@ S0 == [obj    |-> [k \in Keys |-> <<>>],          \* key -> manifest (part ids);
        info   |-> [i \in Ids |-> NoInfo],
        nid    |-> 1,
        old    |-> {},                             \* ids older than the grace window
-       stray  |-> {},                             \* leftovers no part listing shows: [kind, id]
+       stray  |-> {},                             \* crash leftovers no part listing shows: [kind, st]
        gc     |-> GcIdle,
        rd     |-> RdIdle,
        res    |-> "",
@@ -119,8 +122,8 @@ RemoveRefs(W, seq) ==
                !.tch = @ \cup {id \in ids : ok(id)}]
 
 \* partregistry.TryAddReferences: every row must exist with ref_count > 0
-\* (deviation: the guard is dropped, any existing row is incremented)
-Addable(W, id) == IF "H-C08-tryadd-unguarded" \in Deviations THEN W.reg[id] >= 0 ELSE W.reg[id] > 0
+
+Addable(W, id) == W.reg[id] > 0
 CanAdd(W, seq) == \A id \in Rng(seq) : Addable(W, id)
 AddRefs(W, seq) ==
   [W EXCEPT !.reg = [id \in Ids |-> IF id \in Rng(seq) THEN W.reg[id] + Cnt(seq, id) ELSE W.reg[id]],
@@ -271,6 +274,14 @@ RegOverEff(S, k) ==
   [S EXCEPT !.reg[id] = @ + 1, !.gc.dirty = IF S.gc.pc = "observed" THEN @ \cup {id} ELSE @,
             !.res = "ok", !.nops = @ + 1, !.faulted = TRUE]
 
+\* crash leftovers of the filesystem store's commit protocol: "temp" = the
+\* temporary file of a PutPart whose transaction never reached its pre-commit
+\* rename, "backup" = the .txbackup file of a DeletePart / overwriting PutPart
+\* whose process died between the SQL commit and the after-commit remove.
+StrayEff(S, s, kind) ==
+  [S EXCEPT !.stray = @ \cup {[kind |-> kind, st |-> s]}, !.res = "ok", !.nops = @ + 1, !.faulted = TRUE]
+StrayTagOf(kind) == IF kind = "temp" THEN "D-C09-stray-temp" ELSE "D-C09-stray-backup"
+
 TickEff(S) == [S EXCEPT !.old = Minted(S), !.res = "ok"]
 
 \* ------------------------------------------------------- garbage collector
@@ -329,7 +340,8 @@ GcEff(S, nxt, x) ==
     [] G.pc = "reconciled" ->
          GcNextStore([S EXCEPT !.ddx = DedupPruned(S)], [G EXCEPT !.todo = Stores], nxt)
     [] G.pc = "store" ->
-         [S EXCEPT !.gc.pc = "candidates",
+         [S EXCEPT !.stray = {y \in @ : y.st # G.st \/ StrayTagOf(y.kind) \in Deviations},
+                   !.gc.pc = "candidates",
                    !.gc.cand = IF "H-C09-gc-default-store-only" \in Deviations /\ G.st # "default"
                                THEN {} ELSE S.phys[G.st] \cap G.cut,
                    !.res = "candidates"]
@@ -408,6 +420,7 @@ Eff(S, a) ==
     [] a.op = "Orphan"         -> OrphanEff(S, a.s, a.c)
     [] a.op = "RegDrop"        -> RegDropEff(S, a.k)
     [] a.op = "RegOver"        -> RegOverEff(S, a.k)
+    [] a.op = "Stray"          -> StrayEff(S, a.s, a.c)
     [] a.op = "Tick"           -> TickEff(S)
     [] a.op = "Gc"             -> GcEff(S, a.s, a.n)
     [] a.op = "RdResolve"      -> RdResolveEff(S, a.k)
@@ -456,7 +469,9 @@ QuiesceCalls(S) == IF "quiesce" \in Faults /\ ~S.quiet /\ S.rd.st = "idle" THEN 
 
 WriterCalls(S) == PutCalls(S) \cup DeleteCalls(S) \cup CopyCalls(S) \cup TransCalls(S) \cup CreateCalls(S)
                   \cup UpPartCalls(S) \cup UpCopyCalls(S) \cup CompleteCalls(S) \cup AbortCalls(S)
-FaultCalls(S)  == OrphanCalls(S) \cup RegDropCalls(S) \cup RegOverCalls(S)
+StrayCalls(S)  == IF Active(S) /\ "crash" \in Faults
+                  THEN {Call("Stray", "", kind, s, "", 0, "", 0) : kind \in {"temp", "backup"}, s \in Stores \cap TxFree} ELSE {}
+FaultCalls(S)  == OrphanCalls(S) \cup RegDropCalls(S) \cup RegOverCalls(S) \cup StrayCalls(S)
 AllCalls(S)    == WriterCalls(S) \cup FaultCalls(S) \cup TickCalls(S) \cup GcCalls(S) \cup RdCalls(S)
 
 \* -------------------------------------------------------------- the system
@@ -478,7 +493,13 @@ AGc         == Do(GcCalls(S))
 AReader     == Do(RdCalls(S))
 AQuiesce    == Do(QuiesceCalls(S))
 
-Init == S = S0
+RECURSIVE RunProg(_, _)
+RunProg(T, prog) == IF prog = <<>> THEN T ELSE RunProg(Eff(T, Head(prog)), Tail(prog))
+TwoPartProg == <<Call("CreateUpload", "k1", "", "default", "u1", 0, "", 0), Call("UploadPart", "", "a", "", "u1", 1, "", 0),
+                 Call("UploadPart", "", "b", "", "u1", 2, "", 0), Call("Complete", "", "", "", "u1", 0, "", 0),
+                 Call("Tick", "", "", "", "", 0, "", 0)>>
+InitState == IF Preload = "twopart" THEN [RunProg(S0, TwoPartProg) EXCEPT !.nops = 0, !.res = ""] ELSE S0
+Init == S = InitState
 Next == APut \/ ADelete \/ ACopy \/ ATransition \/ ACreate \/ AUploadPart \/ AUploadCopy \/ AComplete
         \/ AAbort \/ AFault \/ ATick \/ AGc \/ AReader \/ AQuiesce
 Spec     == Init /\ [][Next]_S
